@@ -285,6 +285,17 @@ func (w *fzWorld) genCases(c *engine.Ctx, rng *rand.Rand) []fzCase {
 			add("b64-random", fmt.Sprintf("%s %d bytes", p, n), protosOf(p, b64(rb)))
 		}
 	}
+	// well-formed chunk headers whose numbers do not fit the list
+	for _, p := range []string{fp, ap} {
+		for kind := 8; kind <= 14; kind++ {
+			var l [][]byte
+			for _, e := range malformedEntries(p, kind, rng) {
+				l = append(l, []byte(e))
+			}
+			add("chunk-number-odd", fmt.Sprintf("%s kind %d", p, kind), l)
+			add("chunk-number-odd", fmt.Sprintf("%s kind %d + h2", p, kind), append(l, []byte("h2")))
+		}
+	}
 	// base64 of an honest request truncated at every length
 	for _, it := range []struct {
 		p string
